@@ -1,4 +1,5 @@
 import CelmaVerif.Lemmas.FixedStringStep
+import CelmaVerif.Model.FixedStringAlias
 /-
   C10 — a fixed-capacity string never touches memory outside itself and stays well-formed.
   Property theorems only; the per-function lemmas are in Lemmas/FixedString{Base,Safe,Safe2,Obs,Step}.lean.
@@ -37,6 +38,21 @@ theorem C10_safe_wf (c cu : Cfg) (hc : CfgOK c) (hcu : CfgOK cu) (w : World) (hw
     (ha : ArgsOK c w op) :
     (∃ w' o, step c cu w op = .ok (w', o) ∧ WFW c cu w') ∨ (∃ e, step c cu w op = .throw e ∧ MayThrow op) :=
   step_safe hc hcu hw op ha
+
+/-- Self-aliasing sources (`stepAliased`: the `FixedString` / iterator-pair argument is the object itself, read as
+    a copy of the pre-state): safe and well-formed like every other step.  Instance of `C10_safe_wf` at the
+    aliased world.  NOTE: this is a statement about the MODEL's reading (source = value); the real code reaches it
+    only because an aliasing source is copied to a temporary first (`unaliasedSource`, `fix:` commit) — that the
+    real code never writes outside the object for such calls is checked by the guard bytes / exact-size mirror of
+    the correspondence run, not proved. -/
+theorem C10_aliased_safe_wf (c cu : Cfg) (hc : CfgOK c) (hcu : CfgOK cu) (w : World) (hw : WFW c cu w) (op : Op)
+    (ha : ArgsOK c w.aliased op) :
+    (∃ w' o, stepAliased c cu w op = .ok (w', o) ∧ WFW c cu w') ∨
+      (∃ e, stepAliased c cu w op = .throw e ∧ MayThrow op) := by
+  have hwa : WFW c cu w.aliased := ⟨hw.1, hw.1, hw.2.2⟩
+  rcases C10_safe_wf c cu hc hcu w.aliased hwa op ha with ⟨w', o, h, hwf⟩ | ⟨e, h, hm⟩
+  · exact Or.inl ⟨{ w' with t := w.t }, o, by unfold stepAliased; rw [h], hwf.1, hw.2.1, hwf.2.2⟩
+  · exact Or.inr ⟨e, by unfold stepAliased; rw [h], hm⟩
 
 /-- Histories.  Every sequence of operations of any length, started in a well-formed state, runs to its end
     without an out-of-bounds access and ends in a well-formed state (induction over the history; `HistOK`:
